@@ -27,7 +27,9 @@ fn run_at_guards(f: &Forest, prog: Id, env: Id, flags: ClvmFlags, budget: u64, p
     let (o, ev) = with_events(|| crate::outcome::run_dialect_raw(&mut a, &d, p, e, budget));
     let exempt = ev
         .iter()
-        .any(|e| matches!(e, clvmr::verif_hooks::Event::GuardEnter { exempt: true, .. }));
+        .any(|e| matches!(e, clvmr::verif_hooks::Event::GuardEnter { exempt: true, .. }))
+        // only the new cost model grandfathers guards; the hook's own flag is not trusted beyond that
+        && flags.contains(ClvmFlags::NEW_COST_MODEL);
     let guards = ev
         .iter()
         .filter_map(|e| match e {
